@@ -647,6 +647,56 @@ theorem load_current {cfg : Cfg} {w : World} {r : Req} {ls' : LState} {t : Tmpl}
   · exact ⟨f, by rw [h7]; exact h3, h8.symm⟩
 
 
+theorem firstOnPath_some {fs : FS} {key : Key} {entries : List Entry} {loc : Loc} {f : File}
+    (h : firstOnPath fs key entries = some (loc, f)) : fs loc = some f := by
+  induction entries with
+  | nil => simp [firstOnPath] at h
+  | cons e rest ih =>
+    unfold firstOnPath at h
+    cases hl : locate e key with
+    | none => simp only [hl] at h; exact ih h
+    | some l =>
+      simp only [hl] at h
+      cases hf : fs l with
+      | none => simp only [hf] at h; exact ih h
+      | some f' =>
+        simp only [hf, Option.some.injEq, Prod.mk.injEq] at h
+        obtain ⟨rfl, rfl⟩ := h
+        exact hf
+
+/-- the hypothesis that excludes finding C15-shadow: whenever this request would be served from
+    the cache, the cached template's file is the one found first on the search path now -/
+def NoShadow (cfg : Cfg) (w : World) (r : Req) : Prop :=
+  ∀ key t0, resolve cfg.path.isEmpty r = some key → alookup key w.ls.cache.items = some t0 →
+    stillCurrent w.fs w.ls key = true →
+    ∃ entries isabs f, searchPath cfg r key = some (entries, isabs) ∧
+      firstOnPath w.fs key entries = some (t0.loc, f)
+
+/-- under `NoShadow` the full statement holds: the returned template has the current content of
+    the file found first on the search path -/
+theorem load_current_first {cfg : Cfg} {w : World} {r : Req} {ls' : LState} {t : Tmpl}
+    (hi : Inv w) (har : cfg.autoReload = true) (hf : r.fault = .none) (hns : NoShadow cfg w r)
+    (h : load cfg w.fs w.ls r = some (ls', .ok t)) :
+    ∃ key entries isabs f, resolve cfg.path.isEmpty r = some key ∧
+      searchPath cfg r key = some (entries, isabs) ∧
+      firstOnPath w.fs key entries = some (t.loc, f) ∧ f.content = t.content := by
+  obtain ⟨key, hk, hok⟩ := load_ok h
+  rcases hok with ⟨hl, hc, _⟩ | ⟨_, _, _, _, _, _, _, _, _, _, _, h11⟩
+  · have hcur : stillCurrent w.fs w.ls key = true := by
+      rcases hc with hc | hc
+      · rw [har] at hc; cases hc
+      · exact hc
+    obtain ⟨entries, isabs, f, hsp, hfp⟩ := hns key t hk hl hcur
+    obtain ⟨f', hf', hcont⟩ := load_current hi har h
+    have := firstOnPath_some hfp
+    rw [hf'] at this
+    have e : f' = f := Option.some.inj this
+    subst e
+    exact ⟨key, entries, isabs, f', hk, hsp, hfp, hcont⟩
+  · obtain ⟨key', entries, isabs, f, hk', hsp, hfp, _, ht⟩ := load_parses_first h h11 hf
+    refine ⟨key', entries, isabs, f, hk', hsp, hfp, ?_⟩
+    rw [ht]
+
 /-! ### more invariants over histories -/
 
 theorem astep_cap {K V : Type} [DecidableEq K] (a : ALru K V) (op : Op K V) : (astep a op).1.cap = a.cap := by
